@@ -510,6 +510,21 @@ fn full(ctx: &mut Ctx, x: &BitVectorMut, m: &[bool], rng: &mut Rng, step: usize)
                 let wi = rng.usize_below(words);
                 ctx.obs("BitVector", "get_word", None, &|| w(&format!("frozen get_word({wi})")), model_word(m, wi), || bv.get_word(wi), |v| *v);
             }
+            // collecting from positions (any integer type) gives the same vector when the last bit is set
+            if m.last() == Some(&true) {
+                let p64: BitVector = ones.iter().map(|&p| p as u64).collect();
+                let p32: BitVector = ones.iter().map(|&p| p as i32).collect();
+                let pus: BitVector = ones.iter().copied().collect();
+                ctx.obs(
+                    "BitVector",
+                    "eq_frozen",
+                    None,
+                    &|| w("frozen == BitVector collected from the positions of its ones (u64, i32, usize)"),
+                    (true, true, true),
+                    || (bv == p64, bv == p32, bv == pus),
+                    |b| b.0 as u64 + 2 * b.1 as u64 + 4 * b.2 as u64,
+                );
+            }
             // two vectors holding the same bits compare equal
             let fresh: BitVector = m.iter().copied().collect();
             ctx.obs(
